@@ -383,6 +383,8 @@ class World:
         return self.run("info", args + list(flags), **kw)
 
     def flatten(self, root, dest, flags=(), **kw):
+        # the destination's parent must exist (the tool creates the destination itself and the collection folder)
+        os.makedirs(os.path.dirname(self.abs(dest)), exist_ok=True)
         return self.run("flatten", [self.abs(root), self.abs(dest)] + list(flags), **kw)
 
 
